@@ -21,6 +21,7 @@ CONSTANTS
   M_CommitMax = TRUE
   M_BusyTakesAll = TRUE
   M_SpawnFlushesBusy = TRUE
+  M_DiscardResetsBusy = TRUE
   M_RefusedBackOnce = TRUE
   M_TimerFlushesAny = TRUE
 VIEW view
